@@ -203,7 +203,13 @@ def digest_events(events) -> str:
 # minimisation: ddmin over the op list, then per-sim operand shrinking
 
 
+MINIMISE_WALL_S = 60.0
+_deadline = [0.0]
+
+
 def _has_key(sim, cfg, ops, key_str) -> bool:
+    if time.time() > _deadline[0]:
+        return False        # out of minimisation budget: keep what we have
     try:
         res = execute_ops(sim, cfg, ops, stop_on=key_str)
     except HarnessError:
@@ -237,6 +243,7 @@ def ddmin(sim, cfg, ops, key_str, budget=400):
 
 def minimise(sim, cfg, ops, finding: Finding):
     key_str = finding.key_str()
+    _deadline[0] = time.time() + MINIMISE_WALL_S
     # cut after the first op that shows the finding
     res = execute_ops(sim, cfg, ops, stop_on=key_str)
     ops = list(res.ops)
